@@ -57,7 +57,7 @@ def build():
     reg = Registry()
     cs = []
     cs.append(reg.add(Contract(
-        LM + "__getitem__", params={"self": SELF, "key": "Key"}, returns=VAL, lets=LETS, spec_env=ENV, axioms=AX,
+        LM + "__getitem__", params={"self": SELF, "key": "Key"}, returns=VAL, lets=LETS, spec_env=ENV, axioms=AX, strict_lookup=True,
         raises={"KeyError": "forall(lambda i: implies(0 <= i and i < len(L), key not in L[i]))"},
         loops={0: {"inv": ["forall(lambda j: implies(0 <= j and j < _i, key not in L[j]))"]}},
         ensures=[
@@ -138,7 +138,9 @@ def workloads():
 
 def run_proofs(ctx):
     reg, cs = build()
-    ctx.assume("A-layer: every supplied layer behaves as a finite mapping whose membership, lookup and iteration agree (Dict model)",
+    ctx.assume("A-layer: every supplied layer behaves as a finite mapping whose membership, lookup and iteration agree (Dict model); a lookup of a key "
+               "that is NOT in a supplied layer is unspecified (it may raise, or - defaultdict, Counter - invent or even insert a value), so every `layer[key]` "
+               "must be guarded by `key in layer` (safe.key is an obligation even inside try/except)",
                "A-dict: dicts iterate in insertion order; keys pairwise distinct",
                "A-alias: the private _mutations dict is not aliased by a supplied layer")
     run_contracts(ctx, cs, reg, workloads=workloads(), concrete_env=CONCRETE_ENV)
